@@ -333,7 +333,7 @@ def build(tier, only=None):
         "callee contracts (discharged under C10 for the formats claimed there): two_sum / quick_two_sum return (s, t) with s + t = x + y exactly; two_prod returns (p, e) with p + e = x * y exactly - absent overflow, and for products with the error term representable",
         "exact real arithmetic for everything else; a `select` on (item != 0) and `_is_nonzero` are decided exactly (they fork)",
         "lengths are enumerated: 1..4 (quick) / 1..6 (thorough) for renormalisation, up to 2+2 (3+3) terms for add/subtract, up to 2x1 (2x2) for products - a stated bound on list length; values are universally quantified",
-        "the normal-form clause (decreasing magnitudes, non-overlap after at most two passes) and the 1-ulp bound of products are NOT decided",
+        "the normal-form clause (decreasing magnitudes, non-overlap after at most two passes) and the 1-ulp bound of products are NOT decided by contracts; a BOUNDED native stand-in (vf/contracts/C12_bounded.py) exercises them, and exactness with the real two_sum / quick_two_sum / two_prod, on directed expansions - never counted as proved",
     )
     rep.extraction_drops.append("the make_api dispatch wrapper of add/subtract/multiply/square is bypassed (the decorated implementation is run directly with dtype=float64); mp_ctx paths are not taken")
     inst = instances(tier)
@@ -352,6 +352,12 @@ def build(tier, only=None):
     x, y, s = V("x"), V("y"), V("s")
     rep.add(core.decided("C12/canary/dropped-error-term", PROP, not total([s]).same(x + y), text="canary: keeping only the rounded sum does not preserve the value", kind="canary"))
     rep.replayers["C12/"] = lambda o: dict(replay_instance(tuple(o.meta["arg"])), witness_class="%s %s" % tuple(o.meta["arg"])) if (o.meta or {}).get("arg") else dict(replayed=False, witness_class=None)
+    # bounded stand-in for the clauses outside the ring proofs (labelled bounded; never counted as proved)
+    if only is None or "bounded" in only:
+        from vf.contracts import C12_bounded
+
+        C12_bounded.run(rep, tier)
+        rep.replayers["C12/bounded"] = C12_bounded.replay
     return rep
 
 
@@ -362,6 +368,9 @@ def main(tier, only=None):
 
 def replay(path):
     d = json.load(open(path))
+    if (d.get("meta") or {}).get("part") == "bounded":
+        print(json.dumps(d["meta"].get("fails"), indent=1))
+        return 1 if d["meta"].get("fails") else 0
     info = replay_instance(tuple(d["meta"]["arg"]))
     print(json.dumps(info, indent=1, default=str))
     return 1 if info.get("replayed") else 0
